@@ -134,7 +134,7 @@ fn mutate(rng: &mut Rng, src: &[u8]) -> Vec<u8> {
 pub fn suite_cbytes(dir: &str, seed: u64, thorough: bool, st: &mut Stats) {
     let mut rng = Rng::new(seed ^ 0xa7);
     let mut out = SuiteOut::new(dir, "cbytes");
-    let n = if thorough { 2500 } else { 260 };
+    let n = if thorough { 8000 } else { 260 };
     for _ in 0..n {
         let len = match rng.below(10) { 0 => 0, 1 => rng.range(1, 20) as usize, _ => rng.range(20, 2500) as usize };
         let (src, kind) = gen_data(&mut rng, len);
@@ -326,7 +326,7 @@ pub fn conforming_archive(rng: &mut Rng, src: &[u8]) -> (Vec<u8>, Dict) {
 pub fn suite_conform(dir: &str, seed: u64, thorough: bool, st: &mut Stats) {
     let mut rng = Rng::new(seed ^ 0xa1);
     let mut out = SuiteOut::new(dir, "conform");
-    let n = if thorough { 3000 } else { 300 };
+    let n = if thorough { 10000 } else { 300 };
     for i in 0..n {
         let len = match rng.below(8) { 0 => 0, 1 => 1, _ => rng.range(0, 6000) as usize };
         let (src, kind) = gen_data(&mut rng, len);
@@ -452,7 +452,7 @@ pub fn suite_hostile(dir: &str, seed: u64, thorough: bool, st: &mut Stats) {
     let mut rng = Rng::new(seed ^ 0xa3);
     let out = SuiteOut::new(dir, "hostile");
     bomb_cases(st, thorough);
-    let n = if thorough { 4000 } else { 500 };
+    let n = if thorough { 16000 } else { 500 };
     for i in 0..n {
         let mut d = gen_dict(&mut rng);
         // make most of them pass the validation so that the later phases are reached
